@@ -270,6 +270,87 @@ func init() {
 	// a decode into a destination the contract does not model: "the decoder produced some
 	// value" -- the destination is left as the harness prepared it
 	verifHooks["verifDeposit"] = func(e *Exec, a []Value) Value { return VBool{BoolC(true)} }
+	// verifCopyShape(src any, dst any(*T)): if src and *dst flatten to the same list of scalar
+	// leaves (what a toarray struct or a bare scalar looks like on the wire) copy them over
+	verifHooks["verifCopyShape"] = func(e *Exec, a []Value) Value {
+		src := a[0].(VIface)
+		dst := a[1].(VIface)
+		dp, ok := dst.Val.(VPtr)
+		if !ok || dp.C == nil || src.Typ == nil {
+			return VBool{BoolC(false)}
+		}
+		var leaves []Value
+		var flat func(v Value) bool
+		flat = func(v Value) bool {
+			switch x := v.(type) {
+			case VStruct:
+				for _, f := range x.F {
+					if !flat(f) {
+						return false
+					}
+				}
+			case VInt, VBool:
+				leaves = append(leaves, x)
+			default:
+				return false
+			}
+			return true
+		}
+		if !flat(src.Val) {
+			return VBool{BoolC(false)}
+		}
+		i := 0
+		okAll := true
+		var fill func(c *Cell)
+		fill = func(c *Cell) {
+			if c.Fields != nil {
+				for _, f := range c.Fields {
+					fill(f)
+				}
+				return
+			}
+			if c.V == nil { // empty struct
+				return
+			}
+			if i >= len(leaves) {
+				okAll = false
+				return
+			}
+			switch c.V.(type) {
+			case VInt:
+				lv, isInt := leaves[i].(VInt)
+				if !isInt {
+					okAll = false
+					return
+				}
+				w1, _ := typeWS(c.Typ)
+				if !intMode && lv.T.Sort != w1 {
+					okAll = false
+					return
+				}
+				c.V = lv
+			case VBool:
+				lv, isB := leaves[i].(VBool)
+				if !isB {
+					okAll = false
+					return
+				}
+				c.V = lv
+			default:
+				okAll = false
+			}
+			i++
+		}
+		// dry run on a copy first so that a mismatch leaves dst untouched
+		memo := &copyMemo{cells: map[*Cell]*Cell{}, maps: map[*MapObj]*MapObj{}, chans: map[*ChanObj]*ChanObj{}}
+		fill(memo.cell(dp.C))
+		if !okAll || i != len(leaves) {
+			return VBool{BoolC(false)}
+		}
+		i = 0
+		fill(dp.C)
+		return VBool{BoolC(true)}
+	}
 	verifHooks["verifBoundExceeded"] = func(e *Exec, a []Value) Value {
 		e.unwound = append(e.unwound, "contract bound: "+strArg(a[0]))
 		panic(pathEnd{"BOUND " + strArg(a[0])})
